@@ -1,7 +1,7 @@
 """C01 end-to-end oracle on real parsers + the DFA-driven string generator.
 
 A *case* is JSON-able and self-contained:  {"spec": {"args": [{"name","type","default"?}...]}, "obj": {...}}
-  type  := {"t": "str"|"int"|"float"|"bool"} | {"t":"enum","name"} | {"t":"restricted","name"}
+  type  := {"t": "str"|"int"|"float"|"bool"} | {"t":"enum","name"} | {"t":"restricted","name"} | {"t":"registered","name"}
          | {"t":"literal","vals":[..]} | {"t":"opt","a":T} | {"t":"union","a":[T..]} | {"t":"list","a":T}
          | {"t":"dict","k":"str"|"int","v":T} | {"t":"tuple","a":[T..]} | {"t":"vtuple","a":T} | {"t":"set","a":T}
          | {"t":"dataclass","name","fields":[{"name","type","default"}]}
@@ -78,6 +78,34 @@ RESTRICTED_BASE = {"PositiveInt": "int", "NonNegativeInt": "int", "PositiveFloat
 
 PRIMS = {"str": str, "int": int, "float": float, "bool": bool}
 
+
+def registered(name):
+    """built-in registered types of jsonargparse.typing (SecretStr is never dumped by design: excluded)"""
+    import datetime
+    import decimal
+    import pathlib
+    import uuid
+
+    return {"range": range, "timedelta": datetime.timedelta, "bytes": bytes, "bytearray": bytearray, "uuid": uuid.UUID,
+            "complex": complex, "path": pathlib.Path, "decimal": decimal.Decimal}[name]
+
+
+# plain inputs (given to parse_object); every one is accepted by the type's deserializer
+REGISTERED_VALUES = {
+    "range": ["range(5)", "range(0)", "range(2, 8)", "range(0, 10, 2)", "range(0, 10, 3)", "range(10, 0, -1)", "range(10, 0, -3)", "range(5, 5)",
+              "range(-3, 3)", "range(0, -5, -1)", "range(1, 10, 2)", "range(0, 1, 5)", "range(0, 7, 1)", "range(-4, -1, 1)"],
+    "timedelta": ["1:02:03", "0:00:00", "0:00:00.5", "0:00:00.000001", "100:00:00", "-2 days, 1:00:00", "-1 day, 23:59:59.999999",
+                  "3 days, 0:00:01.25", "1 day, 0:00:00", "0:59:59.75", "400 days, 12:30:00"],
+    "bytes": ["", "AA==", "aGVsbG8=", "/+8=", "MWUz", "bnVsbA==", "AAECAwQFBgcICQ=="],
+    "bytearray": ["", "AA==", "aGVsbG8=", "/+8=", "b24="],
+    "uuid": ["12345678-1234-5678-1234-567812345678", "00000000-0000-0000-0000-000000000000", "ffffffff-ffff-4fff-bfff-ffffffffffff",
+             "10000000-0000-4000-8000-0000000000e3"],
+    "complex": ["(1+2j)", "1j", "3", "(-0.5-1.5j)", "1e+22j", "(1e-07+0j)", "0j", "(2.5+0j)", "-1j"],
+    "path": ["a/b.txt", "x", ".", "/abs/path", "a b/c", "1e3", "null", "~", "on", "0x1F", "dir/2001-01-01", "- x", "k: v"],
+    "decimal": [0.5, 2.25, -0.125, 3, "0.5", "1024", 0.0, "-7.75"],                    # exactly representable as float
+}
+REGISTERED_VALUES_WIDE = {"decimal": ["0.1", "1.10", 0.3, "3.14159265358979323846", "1E+3"]}  # C20-decimal-via-float territory
+
 _dc_cache = {}
 
 
@@ -91,6 +119,8 @@ def mk_type(t):
         return ENUMS[t["name"]]
     if k == "restricted":
         return restricted(t["name"])
+    if k == "registered":
+        return registered(t["name"])
     if k == "literal":
         return Literal[tuple(t["vals"])]
     if k == "opt":
@@ -186,6 +216,10 @@ def canon(v):
         return ("int", int(v))
     if isinstance(v, str):
         return ("str", str(v))
+    if type(v).__name__ == "Decimal":
+        return ("Decimal", str(v.normalize()) if v.is_finite() else str(v))   # numeric value, not the exponent spelling
+    if isinstance(v, range):
+        return ("range", v.start, v.stop, v.step)                              # range(0,10,2) != range(0,10): start/stop/step
     return ("other", type(v).__name__, repr(v))
 
 
@@ -472,6 +506,8 @@ def _owns(t, v):
         return isinstance(v, ENUMS[t["name"]])
     if k == "restricted":
         return type(v) is restricted(t["name"])
+    if k == "registered":
+        return isinstance(v, registered(t["name"]))
     if k == "literal":
         return any(v == x and type(v) is type(x) for x in t["vals"])
     if k == "opt":
@@ -555,6 +591,20 @@ def _eq_other_type(v, d):
     return False
 
 
+def sig_decimal_via_float(arg, value, default, variant):
+    """Decimal is serialised with `float` (finding C20-decimal-via-float): a Decimal that float does not preserve"""
+    import decimal
+
+    for x in leaves(value):
+        if isinstance(x, decimal.Decimal):
+            try:
+                if not x.is_finite() or decimal.Decimal(float(x)) != x:
+                    return True
+            except Exception:  # noqa: BLE001
+                return True
+    return False
+
+
 def _is_comments(variant):
     return "comments" in variant.get("flags", "") or variant.get("yaml_comments", False)
 
@@ -588,7 +638,7 @@ def _dict_keys(v):
     elif isinstance(v, (list, tuple, set, frozenset)):
         for x in v:
             yield from _dict_keys(x)
-    elif hasattr(v, "__dict__") and not isinstance(v, (type, enum.Enum)):
+    elif type(v).__name__ == "Namespace" or (dataclasses.is_dataclass(v) and not isinstance(v, type)):
         for x in vars(v).values():
             yield from _dict_keys(x)
 
@@ -629,6 +679,8 @@ def comments_neutral(cfg0):
                 return False
         elif isinstance(x, int) and not isinstance(x, bool) and abs(x) >= 2 ** 63:
             return False
+        elif not (x is None or isinstance(x, (bool, int))):
+            return False     # registered types (range, timedelta, bytes, UUID, complex, Path, Decimal): serialised texts are not letters-only
     return True
 
 
@@ -636,6 +688,7 @@ SIGNATURES = {
     "C01-comments-requoted": sig_comments_requoted,
     "C01-comments-float-digits": sig_comments_float_digits,
     "C01-comments-int-key": sig_comments_int_key,
+    "C01-decimal-via-float": sig_decimal_via_float,
     "C01-json-nonfinite-float": sig_json_nonfinite,
     "C01-json-unreadable-chars": sig_json_unsafe_chars,
     "C01-yaml-nel": sig_yaml_nel,
@@ -836,8 +889,10 @@ def gen_leaf_type(rng, prof):
         return {"t": "bool"}
     if r < 0.76:
         return {"t": "enum", "name": rng.choice(sorted(ENUMS))}
-    if r < 0.86:
+    if r < 0.84:
         return {"t": "restricted", "name": rng.choice(sorted(RESTRICTED_VALUES))}
+    if r < 0.93:
+        return {"t": "registered", "name": rng.choice(sorted(REGISTERED_VALUES))}
     vals = rng.sample(["a", "1e3", "null", "on", 1, 2, 0, "x y", True, None, "1"], rng.randint(1, 3))
     if not prof.get("mixed_literal", False):
         # bool/int/None mixtures in one Literal are a C02 matter (row 5e): keep one kind per Literal
@@ -870,7 +925,7 @@ def gen_type(rng, prof, depth=0):
 
 def _total(t):
     """members whose serialising branch accepts any value (the root of the Union serialisation family)"""
-    if t["t"] in ("enum", "restricted"):
+    if t["t"] in ("enum", "restricted", "registered"):
         return True
     if t["t"] == "opt":
         return _total(t["a"])
@@ -942,6 +997,11 @@ def gen_value(t, rng, sg, prof, depth=0):
         return rng.choice(ENUM_NAMES[t["name"]])
     if k == "restricted":
         return rng.choice(RESTRICTED_VALUES[t["name"]])
+    if k == "registered":
+        vals = REGISTERED_VALUES[t["name"]]
+        if prof.get("decimal_inexact", False) and t["name"] in REGISTERED_VALUES_WIDE and rng.random() < 0.4:
+            vals = REGISTERED_VALUES_WIDE[t["name"]]
+        return rng.choice(vals)
     if k == "literal":
         return rng.choice(t["vals"])
     if k == "opt":
@@ -1024,6 +1084,6 @@ def type_shape(t):
         return "dict[%s,%s]" % (t["k"], type_shape(t["v"]))
     if k == "dataclass":
         return "dc[%s]" % ",".join(type_shape(f["type"]) for f in t["fields"])
-    if k in ("enum", "restricted"):
+    if k in ("enum", "restricted", "registered"):
         return t["name"]
     return k
